@@ -9,6 +9,8 @@ import ObiVerif.Model.TaxSeq
 import ObiVerif.Lemmas.TaxSeq
 import ObiVerif.Lemmas.TaxRender
 import ObiVerif.Lemmas.TaxWLca
+import ObiVerif.Model.TaxIter
+import ObiVerif.Lemmas.TaxIterProto
 /-!
 # C14 — taxonomy queries agree with the tree (property theorems)
 
@@ -619,6 +621,181 @@ theorem pathString_items (name rank : Nat → Bytes) (p : List Nat) (hp : p ≠ 
   · intro a ha
     obtain ⟨x, hx, rfl⟩ := List.mem_map.1 ha
     exact h x (List.mem_reverse.1 hx)
+
+/-! ## 8b. the iterator protocol and the enumerations the commands use (third pass)
+
+`Taxonomy.Iterator()` sends the values of the `nodes` map in Go's map order: any permutation `src` of the keys
+`t.ids` (`hids`: the keys are exactly the nodes, `hnd`: each once — what a Go map is).  The theorems below say: the
+drained iterator lists every node exactly once; `Taxonomy.IFilterOnSubcladeOf(c)` lists every node of the subtree of
+`c` (the descendant set `{x node | Anc t c x}`) exactly once, `IFilterOnTaxRank` / `IFilterBelongingSubclades` /
+obifind's `ITaxonRestrictions` pipeline likewise for their sets; two map orders give permutations of one another;
+an iterator shared through `Split()` hands every taxon to exactly one of the consumers. -/
+
+open ObiVerif.TaxIter in
+/-- `TaxonSlice()` on `slice.Iterator()` / `set.Iterator()`: the loop `for it.Next() { … it.Get() }` receives exactly
+what the producer sends, in order, each once (with the fuel `len + 1`: the loop ends by itself), and leaves the
+iterator finished: `Finished()` is true, `Get()` is nil, every later `Next()` is false and changes nothing -/
+theorem iterator_drains_source (src : List Nat) :
+    taxonSlice (Chan.ofList src) = some (src, none, ⟨[], true⟩) ∧
+    (∀ cur, next ⟨[], true⟩ cur = (false, cur, ⟨[], true⟩)) ∧
+    (∀ f cur acc, drain (f + 1) ⟨[], true⟩ cur acc = some (acc.reverse, cur, ⟨[], true⟩)) :=
+  ⟨taxonSlice_ofList src, fun cur => next_fin [] cur, fun f cur acc => drain_finished [] f cur acc⟩
+
+open ObiVerif.TaxIter in
+/-- `ITaxonSet.TaxonSet()` holds exactly the taxa received, one entry per taxid -/
+theorem taxonSet_of_iterator (l : List Nat) :
+    (∀ x, x ∈ dedup l ↔ x ∈ l) ∧ (dedup l).Nodup ∧ (l.Nodup → dedup l = l) :=
+  ⟨fun x => mem_dedup x l, dedup_nodup l, dedup_of_nodup l⟩
+
+open ObiVerif.TaxIter in
+/-- `Taxonomy.Iterator()` drained: every node of the taxonomy exactly once, whatever the map order -/
+theorem taxonomy_iterator_all_nodes (hids : ∀ x, x ∈ t.ids ↔ (t.node x).isSome) (hnd : t.ids.Nodup)
+    (src : List Nat) (hp : src.Perm t.ids) :
+    ∃ l cur c, taxonSlice (Chan.ofList src) = some (l, cur, c) ∧ c.fin = true ∧ c.rest = [] ∧ cur = none ∧
+      l.Nodup ∧ (∀ x, x ∈ l ↔ (t.node x).isSome) ∧ l.Perm t.ids :=
+  ⟨src, none, ⟨[], true⟩, taxonSlice_ofList src, rfl, rfl, rfl, hp.nodup_iff.2 hnd,
+    fun x => by rw [hp.mem_iff]; exact hids x, hp⟩
+
+open ObiVerif.TaxLoad in
+/-- subtree enumeration — `Taxonomy.IFilterOnSubcladeOf(c)` drained lists exactly the descendant set of `c` (the nodes
+`x` with `Anc t c x`), each node once, in the order of the source; two map orders give permutations of one another -/
+theorem subtree_enumeration (wf : WF t root depth) (hf : FuelOK t fuel)
+    (hids : ∀ x, x ∈ t.ids ↔ (t.node x).isSome) (hnd : t.ids.Nodup) (c : Nat)
+    (src : List Nat) (hp : src.Perm t.ids) :
+    ∃ l, filterSubclade t fuel c src = .ok l ∧ l.Nodup ∧ (∀ x, x ∈ l ↔ (t.node x).isSome ∧ Anc t c x) ∧
+      l.Sublist src ∧
+      ∀ src' l', src'.Perm t.ids → filterSubclade t fuel c src' = .ok l' → l'.Perm l := by
+  have hnodes : ∀ (s : List Nat), s.Perm t.ids → ∀ x ∈ s, ∃ n, t.node x = some n := by
+    intro s hs x hx
+    exact Option.isSome_iff_exists.1 ((hids x).1 (hs.mem_iff.1 hx))
+  have key : ∀ (s : List Nat), s.Perm t.ids → ∃ l, filterSubclade t fuel c s = .ok l ∧ l.Nodup ∧
+      (∀ x, x ∈ l ↔ (t.node x).isSome ∧ Anc t c x) ∧ l.Sublist s := by
+    intro s hs
+    obtain ⟨l, h1, h2, h3, h4⟩ := filterSubclade_spec wf hf c s (hnodes s hs)
+    refine ⟨l, h1, h4 (hs.nodup_iff.2 hnd), ?_, h3⟩
+    intro x
+    rw [h2 x, hs.mem_iff, hids x]
+  obtain ⟨l, h1, h2, h3, h4⟩ := key src hp
+  refine ⟨l, h1, h2, h3, h4, ?_⟩
+  intro src' l' hp' hl'
+  obtain ⟨l2, g1, g2, g3, _⟩ := key src' hp'
+  rw [hl'] at g1; cases g1
+  exact (List.perm_ext_iff_of_nodup g2 h2).2 (fun x => by rw [g3 x, h3 x])
+
+open ObiVerif.TaxLoad in
+/-- `Taxonomy.IFilterOnTaxRank(r)` drained lists exactly the nodes whose own rank is `r`, each once; order free -/
+theorem rank_enumeration (hids : ∀ x, x ∈ t.ids ↔ (t.node x).isSome) (hnd : t.ids.Nodup) (r : String)
+    (src : List Nat) (hp : src.Perm t.ids) :
+    (filterRank t r src).Nodup ∧ (∀ x, x ∈ filterRank t r src ↔ rankIs t r x = true) ∧
+      (filterRank t r src).Sublist src ∧
+      ∀ src', src'.Perm t.ids → (filterRank t r src').Perm (filterRank t r src) := by
+  have key : ∀ (s : List Nat), s.Perm t.ids → (filterRank t r s).Nodup ∧
+      (∀ x, x ∈ filterRank t r s ↔ rankIs t r x = true) := by
+    intro s hs
+    obtain ⟨h1, _, h3⟩ := filterRank_spec (t := t) r s
+    refine ⟨h3 (hs.nodup_iff.2 hnd), fun x => ?_⟩
+    rw [h1 x, hs.mem_iff, hids x]
+    constructor
+    · exact fun h => h.2
+    · intro h
+      refine ⟨?_, h⟩
+      unfold rankIs at h
+      cases hn : t.node x with
+      | none => rw [hn] at h; cases h
+      | some n => rfl
+  obtain ⟨h1, h2⟩ := key src hp
+  refine ⟨h1, h2, (filterRank_spec (t := t) r src).2.1, ?_⟩
+  intro src' hp'
+  obtain ⟨g1, g2⟩ := key src' hp'
+  exact (List.perm_ext_iff_of_nodup g1 h1).2 (fun x => by rw [g2 x, h2 x])
+
+open ObiVerif.TaxLoad ObiVerif.TaxIter in
+/-- obifind's `ITaxonRestrictions()(iterator)` = `IFilterRankRestriction` then `IFilterBelongingSubclades(clades)`,
+drained: exactly the taxa of the source of rank `--rank` (any rank when the option is not given) lying in the clade of
+one of the `--restrict-to-taxon` values (anywhere when none is given), in source order, each once when the source
+lists it once -/
+theorem findRestrict_spec (wf : WF t root depth) (hf : FuelOK t fuel) (rank : String) (clades src : List Nat)
+    (hsrc : ∀ x ∈ src, ∃ n, t.node x = some n) :
+    ∃ l, findRestrict t fuel rank clades src = .ok l ∧
+      (∀ x, x ∈ l ↔ x ∈ src ∧ (rank = "" ∨ rankIs t rank x = true) ∧ (clades = [] ∨ ∃ c ∈ clades, Anc t c x)) ∧
+      l.Sublist src ∧ (src.Nodup → l.Nodup) := by
+  by_cases hr : rank = ""
+  · obtain ⟨l, h1, h2, h3, h4⟩ := filterBelonging_spec wf hf clades src hsrc
+    refine ⟨l, by simp [findRestrict, hr, h1], ?_, h3, h4⟩
+    intro x; rw [h2 x]; simp [hr]
+  · obtain ⟨f1, f2, f3⟩ := filterRank_spec (t := t) rank src
+    have hsrc' : ∀ x ∈ filterRank t rank src, ∃ n, t.node x = some n := fun x hx => hsrc x ((f1 x).1 hx).1
+    obtain ⟨l, h1, h2, h3, h4⟩ := filterBelonging_spec wf hf clades (filterRank t rank src) hsrc'
+    refine ⟨l, by simp [findRestrict, hr, h1], ?_, h3.trans f2, fun hn => h4 (f3 hn)⟩
+    intro x
+    rw [h2 x, f1 x]
+    simp only [hr, false_or]
+    exact and_assoc
+
+open ObiVerif.TaxLoad ObiVerif.TaxIter in
+/-- … on `Taxonomy.Iterator()`: exactly the nodes of that rank in those clades — for one clade and no rank the subtree
+of the clade — each node once, and two map orders give permutations of one another -/
+theorem findRestrict_enumeration (wf : WF t root depth) (hf : FuelOK t fuel)
+    (hids : ∀ x, x ∈ t.ids ↔ (t.node x).isSome) (hnd : t.ids.Nodup) (rank : String) (clades : List Nat)
+    (src : List Nat) (hp : src.Perm t.ids) :
+    ∃ l, findRestrict t fuel rank clades src = .ok l ∧ l.Nodup ∧
+      (∀ x, x ∈ l ↔ (t.node x).isSome ∧ (rank = "" ∨ rankIs t rank x = true) ∧
+        (clades = [] ∨ ∃ c ∈ clades, Anc t c x)) ∧
+      ∀ src' l', src'.Perm t.ids → findRestrict t fuel rank clades src' = .ok l' → l'.Perm l := by
+  have key : ∀ (s : List Nat), s.Perm t.ids → ∃ l, findRestrict t fuel rank clades s = .ok l ∧ l.Nodup ∧
+      (∀ x, x ∈ l ↔ (t.node x).isSome ∧ (rank = "" ∨ rankIs t rank x = true) ∧
+        (clades = [] ∨ ∃ c ∈ clades, Anc t c x)) := by
+    intro s hs
+    have hn : ∀ x ∈ s, ∃ n, t.node x = some n := fun x hx =>
+      Option.isSome_iff_exists.1 ((hids x).1 (hs.mem_iff.1 hx))
+    obtain ⟨l, h1, h2, _, h4⟩ := findRestrict_spec wf hf rank clades s hn
+    exact ⟨l, h1, h4 (hs.nodup_iff.2 hnd), fun x => by rw [h2 x, hs.mem_iff, hids x]⟩
+  obtain ⟨l, h1, h2, h3⟩ := key src hp
+  refine ⟨l, h1, h2, h3, ?_⟩
+  intro src' l' hp' hl'
+  obtain ⟨l2, g1, g2, g3⟩ := key src' hp'
+  rw [hl'] at g1; cases g1
+  exact (List.perm_ext_iff_of_nodup g2 h2).2 (fun x => by rw [g3 x, h3 x])
+
+open ObiVerif.TaxIter in
+/-- `ITaxonSet.Split()` — two handles on one channel and one finished flag, any order of the `Next` calls of the two
+consumers (`sched`): at any time the taxa received by the two are together exactly the part of the source already
+sent, each taxon going to exactly one consumer, each consumer seeing its share in source order; once more calls were
+made than the source has taxa the iterator is finished and the two shares are a partition of the whole source (no
+duplicate across the consumers when the source has none) -/
+theorem split_every_taxon_once (src : List Nat) (sched : List Bool) :
+    (∃ done, src = done ++ (runSched (Two.start src) sched).c.rest ∧
+      ((runSched (Two.start src) sched).gotA.reverse ++ (runSched (Two.start src) sched).gotB.reverse).Perm done ∧
+      (runSched (Two.start src) sched).gotA.reverse.Sublist done ∧
+      (runSched (Two.start src) sched).gotB.reverse.Sublist done) ∧
+    (src.length < sched.length →
+      (runSched (Two.start src) sched).c.fin = true ∧ (runSched (Two.start src) sched).c.rest = [] ∧
+      ((runSched (Two.start src) sched).gotA.reverse ++ (runSched (Two.start src) sched).gotB.reverse).Perm src ∧
+      (runSched (Two.start src) sched).gotA.reverse.Sublist src ∧
+      (runSched (Two.start src) sched).gotB.reverse.Sublist src ∧
+      (src.Nodup → ((runSched (Two.start src) sched).gotA.reverse ++ (runSched (Two.start src) sched).gotB.reverse).Nodup)) :=
+  split_partition src sched
+
+/-! non-vacuity / tests on the example taxonomy (ids 1..5, 9 and 10 merged into 3) -/
+
+example : ∃ l, TaxLoad.filterSubclade exT 6 2 [5, 3, 1, 4, 2] = .ok l ∧ l.Nodup ∧
+    (∀ x, x ∈ l ↔ (exT.node x).isSome ∧ Anc exT 2 x) ∧ l.Sublist [5, 3, 1, 4, 2] ∧
+    ∀ src' l', src'.Perm exT.ids → TaxLoad.filterSubclade exT 6 2 src' = .ok l' → l'.Perm l :=
+  subtree_enumeration exT_wf exT_fuel exT_ids_nodes (by decide) 2 [5, 3, 1, 4, 2] (by decide)
+
+example : TaxLoad.filterSubclade exT 6 2 [5, 3, 1, 4, 2] = .ok [3, 4, 2] ∧
+    TaxIter.findRestrict exT 6 "species" [2, 5] [5, 3, 1, 4, 2] = .ok [3, 4] ∧
+    TaxIter.findRestrict exT 6 "" [] [5, 3, 1, 4, 2] = .ok [5, 3, 1, 4, 2] ∧
+    TaxIter.taxonSlice (TaxIter.Chan.ofList [3, 4, 3]) = some ([3, 4, 3], none, ⟨[], true⟩) ∧
+    TaxIter.dedup [3, 4, 3] = [4, 3] := ⟨rfl, rfl, rfl, rfl, rfl⟩
+
+/-- a schedule a b b a a b on the source 5 3 1 4: a gets 5 4, b gets 3 1, then both see the end -/
+example : (TaxIter.runSched (TaxIter.Two.start [5, 3, 1, 4]) [false, true, true, false, false, true]).gotA.reverse = [5, 4] ∧
+    (TaxIter.runSched (TaxIter.Two.start [5, 3, 1, 4]) [false, true, true, false, false, true]).gotB.reverse = [3, 1] ∧
+    (TaxIter.runSched (TaxIter.Two.start [5, 3, 1, 4]) [false, true, true, false, false, true]).c = ⟨[], true⟩ ∧
+    (TaxIter.runSched (TaxIter.Two.start [5, 3, 1, 4]) [false, true, true, false, false, true]).curA = none ∧
+    (TaxIter.runSched (TaxIter.Two.start [5, 3, 1, 4]) [false, true, true, false, false, true]).curB = some 1 :=
+  ⟨rfl, rfl, rfl, rfl, rfl⟩
 
 /-! ## 9. the textual forms of a taxid accepted by `Taxonomy.Taxon(string)` -/
 
